@@ -829,7 +829,7 @@ fn relations(tier: Tier) -> Vec<Rel> {
 fn main() {
     vh_core::engine::main(PropSpec {
         id: "C02",
-        rule: "Elements are built per prime-field coordinate (raw Montgomery limbs) from the edge-biased prime-field strategy with structural classes: zero, one, prime-subfield, coordinate-aligned proper subfield, single non-zero coordinate, sparse, dense; second operands are independent or correlated (a, -a, 1/a, conjugate); sparse operands of mul_by_034/014/01/1/fp/fp2 are drawn per coefficient (zero, one, edge values) and embedded at the coordinates their name denotes; cyclotomic elements are produced by the oracle as x^((p^(d/2)-1)(p^(d/6)+1)) and their membership is re-checked with the oracle Frobenius; cyclotomic exponents include all-ones limbs, top-heavy limbs, leading zero limbs, empty, 3..8-limb exponents and runs of ones that cross one or two limb boundaries (followed by up to two zero limbs). Over all 27 shipped tower types (Fp2 x6, Fp3 x6, Fp4 x2, Fp6-2over3 x5, Fp6-3over2 x4, Fp12 x4), toy towers over p = 7, 13 (all ordered pairs / all elements) and 15 towers (Fp2 x10, Fp3 x5) over zoo prime fields with modulus shapes no shipped tower has (64/128/256-bit moduli without spare bit, top limb exactly 2^63, full width, two-adicity 32 and 47, hand-written MontConfig with trait-default arithmetic). Deepening round, per tower: ops/ = every operand-kind spelling of + - * / and the compound assignments not used by arith/ (&a op b, &a op &b, a op &mut b, &a op &mut b, x op= &mut b, x /= b), Sum/Product over owned and borrowed iterators (also empty), sum_of_products of length 0, 1, 3, 4, pow and pow_with_table (tables of 0..69 oracle-built powers: Some iff the exponent fits) with 0..2-limb edge exponents; from-int/ = From<u8..u128>, From<i8..i128> of edge bit patterns, MAX and MIN (negative values must give -|v|), From<bool> for quadratic tops (the cubic template's From<bool> never returns - observation O9 in DESIGN.md, outside the listed operations, not checked); hooks/ = the overridable configuration hooks mul_base_field_by_nonresidue_in_place/_and_add/_plus_one_and_add, sub_and_mul_base_field_by_nonresidue, mul_base_field_by_nonresidue, mul_fp2_by_nonresidue and mul_base_field_by_frob_coeff called directly (base-field operands from the edge strategy; Frobenius powers 0..2d+1, huge multiples of d plus a remainder, near usize::MAX) against beta*y, x+beta*y, x+beta*y+y, x-beta*y and the coefficient of w^(p^k) read off the oracle Frobenius; char-mod-6/ = characteristic_square_mod_6_is_one on 0..13 limbs against BigUint. Every result is compared coordinate-wise (and for canonicity) with schoolbook arithmetic modulo the defining binomials built from BigUint arithmetic and the NONRESIDUE constants only; Frobenius by x -> x^p (linear extension of the schoolbook powers of the basis, cross-checked against the direct schoolbook power). A case is non-trivial when every tower operand is outside {0,1} (it then has at least two non-zero coordinates or belongs to one of the structural classes above); for cyclotomic relations when the subgroup element is not 1. distinct = distinct decoded choice sequences.",
+        rule: "Elements are built per prime-field coordinate (raw Montgomery limbs) from the edge-biased prime-field strategy with structural classes: zero, one, prime-subfield, coordinate-aligned proper subfield, single non-zero coordinate, the unit (or -1) plus one or two further non-zero coordinates, sparse, dense; second operands are independent or correlated (a, -a, 1/a, conjugate); sparse operands of mul_by_034/014/01/1/fp/fp2 are drawn per coefficient (zero, one, edge values) and embedded at the coordinates their name denotes; cyclotomic elements are produced by the oracle as x^((p^(d/2)-1)(p^(d/6)+1)) and their membership is re-checked with the oracle Frobenius; cyclotomic exponents include all-ones limbs, top-heavy limbs, leading zero limbs, empty, 3..8-limb exponents and runs of ones that cross one or two limb boundaries (followed by up to two zero limbs). Over all 27 shipped tower types (Fp2 x6, Fp3 x6, Fp4 x2, Fp6-2over3 x5, Fp6-3over2 x4, Fp12 x4), toy towers over p = 7, 13 (all ordered pairs / all elements) and 15 towers (Fp2 x10, Fp3 x5) over zoo prime fields with modulus shapes no shipped tower has (64/128/256-bit moduli without spare bit, top limb exactly 2^63, full width, two-adicity 32 and 47, hand-written MontConfig with trait-default arithmetic). Deepening round, per tower: ops/ = every operand-kind spelling of + - * / and the compound assignments not used by arith/ (&a op b, &a op &b, a op &mut b, &a op &mut b, x op= &mut b, x /= b), Sum/Product over owned and borrowed iterators (also empty), sum_of_products of length 0, 1, 3, 4, pow and pow_with_table (tables of 0..69 oracle-built powers: Some iff the exponent fits) with 0..2-limb edge exponents; from-int/ = From<u8..u128>, From<i8..i128> of edge bit patterns, MAX and MIN (negative values must give -|v|), From<bool> for quadratic tops (the cubic template's From<bool> never returns - observation O9 in DESIGN.md, outside the listed operations, not checked); hooks/ = the overridable configuration hooks mul_base_field_by_nonresidue_in_place/_and_add/_plus_one_and_add, sub_and_mul_base_field_by_nonresidue, mul_base_field_by_nonresidue, mul_fp2_by_nonresidue and mul_base_field_by_frob_coeff called directly (base-field operands from the edge strategy; Frobenius powers 0..2d+1, huge multiples of d plus a remainder, near usize::MAX) against beta*y, x+beta*y, x+beta*y+y, x-beta*y and the coefficient of w^(p^k) read off the oracle Frobenius; char-mod-6/ = characteristic_square_mod_6_is_one on 0..13 limbs against BigUint. Every result is compared coordinate-wise (and for canonicity) with schoolbook arithmetic modulo the defining binomials built from BigUint arithmetic and the NONRESIDUE constants only; Frobenius by x -> x^p (linear extension of the schoolbook powers of the basis, cross-checked against the direct schoolbook power). A case is non-trivial when every tower operand is outside {0,1} (it then has at least two non-zero coordinates or belongs to one of the structural classes above); for cyclotomic relations when the subgroup element is not 1. distinct = distinct decoded choice sequences.",
         assumptions: &[
             "num-bigint arithmetic is correct (oracle)",
             "NONRESIDUE constants of the shipped configurations define the intended fields (the oracle reads them; irreducibility is implied by the oracle check x^(p^d) = x and the inverse checks)",
